@@ -41,44 +41,75 @@ def _state_str(st):
                                                  " nounset" if st["nounset"] else "", st["st"])
 
 
+def _expected_features():
+    """Rules of the specification that the enumeration must exercise (tags computed by the harness)."""
+    exp = []
+    for q in ("dq", "uq"):
+        for cls in ("unset", "empty", "nonempty"):
+            for c in ("", ":"):
+                for a in "-=?+":
+                    exp.append(f"sw{c}{a}/{q}/{cls}")
+            for t in ("#", "##", "%", "%%"):
+                exp.append(f"trim{t}/{q}/{cls}")
+            exp.append(f"$par/{q}/{cls}")
+        for p in "@*":
+            for n in (0, 1, 2):
+                exp.append(f"${p}/{q}/npos={n}")
+        exp += [f"lit/{q}", f"bs/{q}"]
+    exp += [f"len/{cls}" for cls in ("unset", "empty", "nonempty")]
+    exp += ["sq", "dq", "dq-empty", "$#", "$?", "state/nounset", "out/two-allowed", "out/assigned",
+            "out/has-empty-field", "out/err-unset", "out/err-vacant", "out/err-nonassignable",
+            "out/fields=0", "out/fields=1", "out/fields=2", "out/fields=>2"]
+    return exp
+
+
 def _parse_summary(out):
     line = [l for l in out.strip().splitlines() if l.startswith("{")][-1]
     return json.loads(line)
 
 
+SHARD = 40000      # records per TLC run (the whole file is held as one TLA+ value)
+
+
 def _validate(rep, trace, what, timeout, totals, mb=False):
-    """Run Trace_Expand over `trace`; report every rejected record."""
-    n = vlib.count_lines(trace)
-    if n == 0:
-        return 0
-    r = vlib.tlc("Trace_Expand", "Trace_Expand.cfg", workers=8, timeout=timeout, env={"TRACE": os.path.abspath(trace)})
-    vlib.tlc_must_pass(r, f"trace validation ({what})")
-    if r.distinct != 2 * n - 1:
-        raise vlib.ToolError(f"trace validation ({what}) judged {r.distinct} states for {n} records")
-    totals["states"] += r.distinct
-    totals["transitions"] += r.generated
-    verdicts = {j["i"]: j for j in r.json}
-    rejected = [i for i, j in verdicts.items() if j["v"] == "reject"]
-    skipped = sum(1 for j in verdicts.values() if j["v"] == "skip")
-    if rejected:
-        want = set(rejected)
-        with open(trace) as f:
-            for i, line in enumerate(f, 1):
-                if i in want:
-                    rec = json.loads(line)
-                    exp = verdicts[i]["exp"]
-                    if rec.get("kind") == "read":
-                        key = {"dir": "impl->spec", "what": "read", "line": rec["line"], "n": rec["n"],
-                               "ifs": rec["ifs"]}
-                        detail = f"read: observed {rec['obs']}, allowed {exp}"
-                    else:
-                        key = {"dir": "impl->spec", "what": "word", "text": rec["text"], "state": _state_str(rec["st"])}
-                        detail = (f"`probe {rec['text']}` in [{_state_str(rec['st'])}] gave {rec['obs']['k']} "
-                                  f"{rec['obs']['f']} x={rec['obs']['x']} y={rec['obs']['y']}; allowed: {exp}")
-                    rec["mb"] = mb
-                    rep.violation(key, detail, rec)
-    vlib.log(f"[p4<-] {what}: {n} records judged by TLC in {r.wall:.1f}s: {n - len(rejected) - skipped} accepted, "
-             f"{skipped} outside the modelled fragment, {len(rejected)} rejected")
+    """Run Trace_Expand over `trace` (in shards); report every rejected record."""
+    with open(trace) as f:
+        lines = f.readlines()
+    n = len(lines)
+    accepted = skipped = nrej = 0
+    wall = 0.0
+    for a in range(0, n, SHARD):
+        part = lines[a:a + SHARD]
+        p = f"{trace}.shard"
+        with open(p, "w") as f:
+            f.writelines(part)
+        r = vlib.tlc("Trace_Expand", "Trace_Expand.cfg", workers=8, timeout=timeout, env={"TRACE": os.path.abspath(p)})
+        os.remove(p)
+        vlib.tlc_must_pass(r, f"trace validation ({what})")
+        if r.distinct != 2 * len(part) - 1:
+            raise vlib.ToolError(f"trace validation ({what}) judged {r.distinct} states for {len(part)} records")
+        wall += r.wall
+        totals["states"] += r.distinct
+        totals["transitions"] += r.generated
+        for j in r.json:
+            if j["v"] == "skip":
+                skipped += 1
+                continue
+            nrej += 1
+            rec = json.loads(part[j["i"] - 1])
+            exp = j["exp"]
+            if rec.get("kind") == "read":
+                key = {"dir": "impl->spec", "what": "read", "line": rec["line"], "n": rec["n"], "ifs": rec["ifs"]}
+                detail = f"read: observed {rec['obs']}, allowed {exp}"
+            else:
+                key = {"dir": "impl->spec", "what": "word", "text": rec["text"], "state": _state_str(rec["st"])}
+                detail = (f"`probe {rec['text']}` in [{_state_str(rec['st'])}] gave {rec['obs']['k']} "
+                          f"{rec['obs']['f']} x={rec['obs']['x']} y={rec['obs']['y']}; allowed: {exp}")
+            rec["mb"] = mb
+            rep.violation(key, detail, rec)
+    accepted = n - nrej - skipped
+    vlib.log(f"[p4<-] {what}: {n} records judged by TLC in {wall:.1f}s: {accepted} accepted, "
+             f"{skipped} outside the modelled fragment, {nrej} rejected")
     return n - skipped
 
 
@@ -128,6 +159,10 @@ def run(tier):
              f"{s_words['ambiguous']} with two allowed outcomes, {s_words['skipped']} skipped): "
              f"{s_words['mismatches']} mismatches")
     os.remove(gen)
+    features = s_words.get("features", {})
+    not_exercised = [t for t in _expected_features() if not features.get(t)]
+    if not_exercised:
+        vlib.log(f"NOTE: rules of the specification not exercised by the enumeration: {not_exercised}")
 
     # 2b. spec -> impl, read
     genr = os.path.join(wd, "genread.ndjson")
@@ -185,6 +220,8 @@ def run(tier):
         "spec_to_impl_words": {k: s_words[k] for k in ("cases", "ok", "errors", "ambiguous", "skipped", "fields",
                                                         "mismatches", "runs")},
         "spec_to_impl_read": {k: s_read[k] for k in ("cases", "ambiguous", "mismatches")},
+        "rule_coverage": features,
+        "rules_not_exercised": not_exercised,
         "impl_to_spec_words_judged": judged,
         "impl_to_spec_read_judged": judged_read,
     }, time.time() - t0, violations=len(rep.violations), assumptions=[
